@@ -60,7 +60,7 @@ ASSUMPTIONS = [
 PROBES = ["mixed_cell_shapes_2d", "two_subdomains_same_dim_different_mix", "polyhedral_3d", "interface_data", "vector_data", "ge_11_exports", "non_integer_times",
           "times_closer_than_1e-6", "crash_in_times_json", "crash_in_vtu", "crash_in_step_pvd", "crash_in_collecting_pvd", "crash_between_exports", "torn_file",
           "restart_route_pvd", "restart_route_mdg_pvd", "restart_route_vtu", "second_restart", "third_restart", "restart_raised_after_midexport_crash",
-          "continue_after_restart", "crash_during_restart_before_any_output", "data_tuples_not_in_mdg_order", "constants_exported_separately", "stale_output_of_previous_run_in_folder", "io_error_during_export", "rejected_export_in_the_middle_of_a_run", "grid_replaced_between_exports", "export_after_rejected_export_raises", "times_to_export_subset", "step_not_exported", "readonly_import_of_older_step", "zero_d_subdomain", "export_after_vtu_route_restart_raises"]
+          "continue_after_restart", "crash_during_restart_before_any_output", "data_tuples_not_in_mdg_order", "constants_exported_separately", "stale_output_of_previous_run_in_folder", "io_error_during_export", "rejected_export_in_the_middle_of_a_run", "grid_replaced_between_exports", "interface_grid_changed_in_place", "constant_data_updated_mid_run", "pvd_selection_not_a_prefix", "export_after_rejected_export_raises", "times_to_export_subset", "step_not_exported", "readonly_import_of_older_step", "zero_d_subdomain", "export_after_vtu_route_restart_raises"]
 
 KEYS_SD = ["p"]
 
@@ -889,6 +889,127 @@ WORKLOADS.append(
     Workload(
         name="regrid", leak_mb=0.5, override_cap=60, run=run_regrid, runs={"quick": 400, "thorough": 40_000}, chunk=25, run_timeout=120.0,
         real=["pp.Exporter with fixed_grid=False: write_vtu(..., grid=new_grid) between exports, import_state_from_vtu by the same exporter object after each export; generated 2-d grids mixing triangles, quadrilaterals and hexagons"],
+        stub=["none (real files in a scratch folder)"],
+    )
+)
+
+
+# --------------------------------------------------------------------------------------
+# L1c: the exporter's own API (no DataSavingMixin): constant data updated in the course of a run, exported separately or
+# not, pvd files gathering a selection of the exported steps, grids modified in place and handed over again
+def run_direct(ch, tr: Trace) -> None:
+    with ch.span("config"):
+        separately = ch.flag()
+        regrid = ch.flag(1, 3)  # fixed_grid=False and in-place changes of the interface grid
+        n_steps = ch.rng(2, 6)
+    with envseam.scratch() as root:
+        folder = Path(root) / "viz"
+
+        def make_mdg():
+            m = pp.meshing.cart_grid([np.array([[0, 2], [1, 1]])], [2, 2], physdims=[2, 2])
+            m.compute_geometry()
+            return m
+
+        mdg = make_mdg()
+        kw = {"export_constants_separately": separately}
+        if regrid:
+            kw["fixed_grid"] = False
+        ex = pp.Exporter(mdg, "run", folder_name=folder, **kw)
+        tr.emit("config", separately, regrid, n_steps)
+        counter = [0]
+
+        def grids_of(m):
+            return list(m.subdomains()) + list(m.interfaces())
+
+        def fresh(m, frac):
+            counter[0] += 1
+            return [1.0e3 * counter[0] + 10.0 * j + np.arange(g.num_cells) + frac for j, g in enumerate(grids_of(m))]
+
+        written: dict = {}
+        perm = None
+        remeshed: list = []  # node counts of the in-place mortar remeshings, to rebuild an identical grid for the import
+        times = []
+        for step in range(n_steps):
+            ch.begin("step")
+            try:
+                new_const = step == 0 or ch.flag(1, 3)
+                do_remesh = regrid and step > 0 and ch.flag(1, 3)
+                n_nodes = ch.rng(2, 6)
+            finally:
+                ch.end()
+            grid_arg = {}
+            if do_remesh:
+                intf = mdg.interfaces()[0]
+                new_sides = {sd_: pp.refinement.remesh_1d(g_, n_nodes) for sd_, g_ in intf.side_grids.items()}
+                mdg.replace_subdomains_and_interfaces(interface_map={intf: new_sides})  # same MortarGrid object, other cells
+                remeshed.append(n_nodes)
+                grid_arg = {"grid": mdg}
+                new_const = True  # the constant field lives on the changed interface as well
+                tr.probe("interface_grid_changed_in_place")
+            if new_const:
+                perm = fresh(mdg, 0.75)
+                try:
+                    ex.add_constant_data([(g, "perm", v.copy()) for g, v in zip(grids_of(mdg), perm)])
+                except Exception as e:  # noqa: BLE001
+                    raise Violation("export_of_valid_data_completes", f"add_constant_data at step {step} raised {e!r}", "direct_export_raised")
+                if step > 0:
+                    tr.probe("constant_data_updated_mid_run")
+            pvals = fresh(mdg, 0.25)
+            try:
+                ex.write_vtu([(g, "p", v.copy()) for g, v in zip(grids_of(mdg), pvals)], time_step=step, **grid_arg)
+            except Exception as e:  # noqa: BLE001
+                raise Violation("export_of_valid_data_completes", f"write_vtu at step {step} ({'interface remeshed in place' if do_remesh else 'same grid'}) raised {e!r}", "direct_export_raised")
+            written[step] = {"p": [v.copy() for v in pvals], "perm": [v.copy() for v in perm], "remeshed": list(remeshed)}
+            times.append(0.5 * step + 0.25)
+            tr.op("export", "ok", step, new_const, do_remesh)
+        # the pvd gathers all steps or a selection (keyword file_extension)
+        ch.begin("pvd")
+        try:
+            subset = sorted(ch.subset(list(range(n_steps)), 1)) if ch.flag() else None
+        finally:
+            ch.end()
+        try:
+            if subset is None:
+                ex.write_pvd(times=np.array(times))
+            else:
+                ex.write_pvd(times=np.array([times[k] for k in subset]), file_extension=subset)
+                if subset != list(range(len(subset))):
+                    tr.probe("pvd_selection_not_a_prefix")
+        except Exception as e:  # noqa: BLE001
+            raise Violation("export_of_valid_data_completes", f"write_pvd(file_extension={subset}) raised {e!r}", "direct_export_raised")
+        k_exp = n_steps - 1 if subset is None else subset[-1]
+        # import with a fresh exporter on an identically constructed grid (same in-place remeshings as at step k_exp)
+        envseam.pin()
+        mdg2 = make_mdg()
+        for nn in written[k_exp]["remeshed"]:
+            intf2 = mdg2.interfaces()[0]
+            mdg2.replace_subdomains_and_interfaces(interface_map={intf2: {sd_: pp.refinement.remesh_1d(g_, nn) for sd_, g_ in intf2.side_grids.items()}})
+        for g in grids_of(mdg2):
+            d = mdg2.subdomain_data(g) if isinstance(g, pp.Grid) else mdg2.interface_data(g)
+            for key_ in ("p", "perm"):
+                pp.set_solution_values(key_, np.zeros(g.num_cells), d, time_step_index=0)
+        imp = pp.Exporter(mdg2, "restart", folder_name=folder)
+        try:
+            k_got = imp.import_from_pvd(folder / "run.pvd", keys=["p", "perm"])
+        except (Exception, SystemExit) as e:  # noqa: BLE001
+            raise Violation("restart_from_complete_exports_succeeds", f"import_from_pvd (pvd over steps {subset if subset is not None else 'all'}) raised {e!r}", "direct_import_raised")
+        if k_got != k_exp:
+            raise Violation("restart_restores_one_exported_step", f"import_from_pvd restored step {k_got}, the most recent step in the pvd is {k_exp}", "direct_other_step")
+        for j, g in enumerate(grids_of(mdg2)):
+            d = mdg2.subdomain_data(g) if isinstance(g, pp.Grid) else mdg2.interface_data(g)
+            for key_ in ("p", "perm"):
+                got = np.asarray(pp.get_solution_values(key_, d, time_step_index=0)).ravel()
+                exp = written[k_exp][key_][j]
+                if got.shape != exp.shape or not np.array_equal(got, exp):
+                    raise Violation("restart_restores_one_exported_step", f"'{key_}' on {'subdomain' if isinstance(g, pp.Grid) else 'interface'} of dimension {g.dim} restored as {got.tolist()[:6]}, step {k_exp} wrote {exp.tolist()[:6]} (constants separately: {separately}, pvd selection {subset})", "direct_values_wrong" + ("_constant" if key_ == "perm" else ""))
+        tr.op("import", "ok", k_got, changing=False)
+        tr.emit("end", n_steps)
+
+
+WORKLOADS.append(
+    Workload(
+        name="direct", leak_mb=1.0, override_cap=40, run=run_direct, runs={"quick": 240, "thorough": 20_000}, chunk=12, run_timeout=200.0,
+        real=["pp.Exporter used directly: add_constant_data (updated mid-run), export_constants_separately on/off, write_vtu(time_step=k, grid=mdg) after in-place changes of the interface grid (fixed_grid=False), write_pvd(times, file_extension=selection), import_from_pvd by a fresh exporter with time-dependent and constant keys"],
         stub=["none (real files in a scratch folder)"],
     )
 )
